@@ -63,7 +63,7 @@ func TestVFC08HomeAdapters(t *testing.T) {
 			}
 			switch k {
 			case "ip":
-				o.ip, o.hasIP = netip.MustParseAddr(rapid.SampledFrom([]string{"192.0.2.77", "2001:db8:77::77"}).Draw(t, "ip")), true
+				o.ip, o.hasIP = netip.MustParseAddr(rapid.SampledFrom([]string{"192.0.2.77", "2001:db8:77::77", "fe80::77%eth0"}).Draw(t, "ip")), true
 				p.IPs = []netip.Addr{o.ip}
 			case "subnet":
 				o.subnet, o.hasSub = netip.MustParsePrefix(rapid.SampledFrom([]string{"198.51.100.128/25", "2001:db8:c1d::/64"}).Draw(t, "subnet")), true
@@ -82,6 +82,9 @@ func TestVFC08HomeAdapters(t *testing.T) {
 		for i := 0; i < n; i++ {
 			addr := netip.MustParseAddr(rapid.SampledFrom([]string{
 				"192.0.2.77", "192.0.2.78", "198.51.100.130", "198.51.100.1", "2001:db8:77::77", "2001:db8:c1d::9", "203.0.113.5",
+				// a link-local client: the DNS server reports its address to the log
+				// and the statistics without the zone of the interface
+				"fe80::77", "fe80::77",
 			}).Draw(t, fmt.Sprintf("l%d_addr", i)))
 			cid := rapid.SampledFrom([]string{"", "", "cid-client", "other-id"}).Draw(t, fmt.Sprintf("l%d_cid", i))
 			ids := []string{addr.String()}
@@ -98,7 +101,7 @@ func TestVFC08HomeAdapters(t *testing.T) {
 			}
 			if want == nil {
 				for _, o := range owners {
-					if o.hasIP && o.ip == addr {
+					if o.hasIP && (o.ip == addr || o.ip.WithZone("") == addr) {
 						want = o
 					}
 				}
